@@ -94,6 +94,8 @@ func selfTestSpaces() []space {
 		{alpha: chains2, n: 1, depth: 1, dangOp: true, cfgs: [][2]string{{"none", "1.4"}, {"aes-128", "1.7-aes128"}, {"rc4-128", tgtRC4}}},
 		{alpha: chains3, n: 1, depth: 1, cfgs: plainPair},
 		{alpha: chains2Linked, n: 2, depth: 1, rooted: true, cfgs: plainPair},
+		// every name of the name family in every placement
+		{alpha: names, n: 1, depth: 1, rooted: true, cfgs: [][2]string{{srcByHand, "1.4"}}},
 	}
 }
 
@@ -195,6 +197,18 @@ func selfTestOracle(rn *runner) error {
 			if err != nil || g2.String() != g.String() || g2[1].V != o.V {
 				return fmt.Errorf("graph syntax does not round trip: %q: %v", g.String(), err)
 			}
+		}
+	}
+	for _, o := range names.kinds(1) {
+		g := Graph{o}
+		g2, err := ParseGraph(g.String())
+		if err != nil || g2.String() != g.String() || len(g2[0].It) != len(o.It) || len(o.It) > 0 && g2[0].It[0] != o.It[0] || g2[0].V != o.V {
+			return fmt.Errorf("graph syntax does not round trip: %q: %v", g.String(), err)
+		}
+	}
+	for _, idx := range allNames {
+		if nameSpecOf(idx).index() != idx {
+			return fmt.Errorf("name family: index %d does not round trip", idx)
 		}
 	}
 	// the encoder of the filter-chain fixtures, against decoders that are not
@@ -305,6 +319,18 @@ func selfTestOracle(rn *runner) error {
 		{flawStreamBytes, "S{FH:-}<>", "R0", "stream-bytes-differ:stream=filter-chain-of-2"},
 		{flawStreamBytes, "S{LLH:eNP}<0>", "C0", "stream-bytes-differ:stream=filter-chain-of-3"},
 		{flawDuplicate, "<1> S{LH:Pe}<1>", "R0", "sharing:object-copied-twice"},
+		// the name family ("/p23h": the name N#41; "=p23h": an entry with that name as its key)
+		{flawNameHashRaw, "/p23h", "R0", "value-differs:name;byte=number-sign;next=two-hex-digits"},
+		{flawNameHashRaw, "[/b23h]", "C0", "value-differs:name;byte=number-sign;next=two-hex-digits"},
+		{flawNameHashRaw, "<=p23h>", "R0", "dict-key-differs:byte=number-sign;next=two-hex-digits"},
+		{flawNameHashRaw, "S1<=p23h>", "C0", "dict-key-differs:byte=number-sign;next=two-hex-digits"},
+		{flawNameHashRaw, "S2<<=b23h>>", "R0", "dict-key-differs:byte=number-sign;next=two-hex-digits"},
+		{flawNameHashRaw, "[</p23h>]", "R0", "value-differs:name;byte=number-sign;next=two-hex-digits"},
+		{flawNameCutAtDelim, "</p28e>", "R0", "value-differs:name;byte=delimiter;next=end-of-name"},
+		{flawNameCutAtDelim, "S0<=p20z>", "R0", "dict-key-differs:byte=white-space;next=non-hex"},
+		{flawNameCutAtDelim, "<=b2fm>", "C0", "dict-key-differs:byte=delimiter;next=hex-digit+other"},
+		{flawNameHighDropped, "[[/pffh]]", "R0", "value-differs:name;byte=del-or-high;next=two-hex-digits"},
+		{flawNameHighDropped, "S0<=p80e>", "C0", "dict-key-differs:byte=del-or-high;next=end-of-name"},
 	}
 	for _, p := range plants {
 		g, err := ParseGraph(p.graph)
